@@ -22,6 +22,7 @@ VARIABLES
   stream,     \* <<m, ver>> -> (tp -> [start, hw, got])
   pending,    \* <<m, call id>> -> [msgs, acked] of the CommitMessages calls in progress (call id 0 unless calls overlap)
   reading,    \* members inside ReadMessage
+  handed,     \* m -> <<tp, off>> of a record FetchMessage took from the Reader's queue and has not yet returned to the application
   closedAt,   \* m -> time Close returned
   joined,     \* owner -> member id of its last successful JoinGroup ("" none)
   left,       \* owner -> set of member ids it sent LeaveGroup for
@@ -31,23 +32,24 @@ VARIABLES
   closing,    \* members whose Close was called
   viol        \* set of violated clause labels
 
-mvars == <<l, tid, cfg, stored, committed, asked, delivered, fetched, stream, pending, reading, closedAt, joined, left,
+mvars == <<l, tid, cfg, stored, committed, asked, delivered, fetched, stream, pending, reading, handed, closedAt, joined, left,
            faulted, gens, lastFail, closing, viol>>
 
 NoCfg == [mode |-> "", startOffset |-> -2, sync |-> TRUE, heartbeatMs |-> 25, backoffMs |-> 60]
 Init ==
   /\ l = 1 /\ tid = "" /\ cfg = NoCfg /\ stored = <<>> /\ committed = <<>> /\ asked = <<>> /\ delivered = <<>>
-  /\ fetched = <<>> /\ stream = <<>> /\ pending = <<>> /\ reading = {} /\ closedAt = <<>> /\ joined = <<>> /\ left = <<>>
+  /\ fetched = <<>> /\ stream = <<>> /\ pending = <<>> /\ reading = {} /\ handed = <<>> /\ closedAt = <<>> /\ joined = <<>> /\ left = <<>>
   /\ faulted = {} /\ gens = <<>> /\ lastFail = <<>> /\ closing = {} /\ viol = {}
 
 Get(f, k, d) == IF k \in DOMAIN f THEN f[k] ELSE d
 Put(f, k, v) == (k :> v) @@ f
+Del(f, k) == [x \in DOMAIN f \ {k} |-> f[x]]
 Max(a, b) == IF a >= b THEN a ELSE b
 TPKey(x) == x[1] \o "/" \o ToString(x[2])     \* ["t", 0] -> "t/0"
 OwnerOf(m) == "m" \o ToString(m)
 Last(s) == s[Len(s)]
 
-Same == UNCHANGED <<tid, cfg, stored, committed, asked, delivered, fetched, stream, pending, reading, closedAt, joined, left,
+Same == UNCHANGED <<tid, cfg, stored, committed, asked, delivered, fetched, stream, pending, reading, handed, closedAt, joined, left,
                     faulted, gens, lastFail, closing, viol>>
 
 \* requests that arrive long after Close returned (the grace period absorbs the recording lag of in-flight ones)
@@ -79,20 +81,20 @@ Coord(e) ==
          /\ viol' = viol \cup LateCheck(e, owner)
                         \cup (IF Get(lastFail, owner, -1) >= 0 /\ e.ts - lastFail[owner] < cfg.backoffMs - 5
                                 THEN {"C15_BackoffAfterFailedJoin"} ELSE {})
-         /\ UNCHANGED <<tid, cfg, stored, committed, asked, delivered, fetched, stream, pending, reading, closedAt, left, faulted, gens, closing>>
+         /\ UNCHANGED <<tid, cfg, stored, committed, asked, delivered, fetched, stream, pending, reading, handed, closedAt, left, faulted, gens, closing>>
     [] e.api = "sync" ->
          /\ lastFail' = IF e.code \notin {0, 27} THEN Put(lastFail, owner, e.ts) ELSE lastFail
          /\ viol' = viol \cup LateCheck(e, owner)
-         /\ UNCHANGED <<tid, cfg, stored, committed, asked, delivered, fetched, stream, pending, reading, closedAt, joined, left, faulted, gens, closing>>
+         /\ UNCHANGED <<tid, cfg, stored, committed, asked, delivered, fetched, stream, pending, reading, handed, closedAt, joined, left, faulted, gens, closing>>
     [] e.api = "leave" ->
          /\ left' = Put(left, owner, Get(left, owner, {}) \cup {e.member})
-         /\ UNCHANGED <<tid, cfg, stored, committed, asked, delivered, fetched, stream, pending, reading, closedAt, joined, faulted, gens, lastFail, closing, viol>>
+         /\ UNCHANGED <<tid, cfg, stored, committed, asked, delivered, fetched, stream, pending, reading, handed, closedAt, joined, faulted, gens, lastFail, closing, viol>>
     [] e.api = "offsetfetch" ->
          /\ gens' = IF e.code = 0 /\ cfg.mode = "cg" THEN Put(gens, <<MOf(owner), 0>>, [NewGen EXCEPT !.offered = e.ts]) ELSE gens
          /\ fetched' = Put(fetched, owner, [k \in { TPKey(x) : x \in { e.offsets[i] : i \in DOMAIN e.offsets } } |->
                                               (CHOOSE x \in { e.offsets[i] : i \in DOMAIN e.offsets } : TPKey(x) = k)[3]])
          /\ viol' = viol \cup LateCheck(e, owner)
-         /\ UNCHANGED <<tid, cfg, stored, committed, asked, delivered, stream, pending, reading, closedAt, joined, left, faulted, lastFail, closing>>
+         /\ UNCHANGED <<tid, cfg, stored, committed, asked, delivered, stream, pending, reading, handed, closedAt, joined, left, faulted, lastFail, closing>>
     [] e.api = "offsetcommit" /\ e.code = 0 ->
          LET offs == { e.offsets[i] : i \in DOMAIN e.offsets } IN
          /\ committed' = [k \in DOMAIN committed \cup { TPKey(x) : x \in offs } |->
@@ -108,7 +110,7 @@ Coord(e) ==
               \cup (IF cfg.startOffset = -2 /\ \E x \in offs : \E o \in 0 .. x[3] - 1 :
                          o < Get(stored, TPKey(x), 0) /\ o \notin Get(delivered, TPKey(x), {})
                       THEN {"C03_DeliveredBeforeCovered"} ELSE {})
-         /\ UNCHANGED <<tid, cfg, stored, asked, delivered, fetched, stream, reading, closedAt, joined, left, faulted, gens, lastFail, closing>>
+         /\ UNCHANGED <<tid, cfg, stored, asked, delivered, fetched, stream, reading, handed, closedAt, joined, left, faulted, gens, lastFail, closing>>
     [] e.api = "heartbeat" ->
          \* (the Generation hooks of a generation the application has not received yet are recorded only when Next returns it:
          \* a heartbeat may be the first event that mentions the generation)
@@ -120,22 +122,24 @@ Coord(e) ==
          /\ viol' = viol \cup LateCheck(e, owner)
               \cup (IF \E k \in DOMAIN gens : OwnerOf(k[1]) = owner /\ k[2] = e.generation /\ gens[k].closed
                       THEN {"C15_NoHeartbeatAfterEnd"} ELSE {})
+              \* a member that has left the group (LeaveGroup is the last thing Close does) does not heartbeat any more
+              \cup (IF e.member # "" /\ e.member \in Get(left, owner, {}) THEN {"C15_NoHeartbeatAfterEnd"} ELSE {})
               \cup (IF \E k \in DOMAIN gens : OwnerOf(k[1]) = owner /\ k[2] = e.generation /\ ~gens[k].ended
                           /\ gens[k].lastHb >= 0 /\ e.ts - gens[k].lastHb > 3 * cfg.heartbeatMs + 2500
                       THEN {"C15_HeartbeatInterval"} ELSE {})
-         /\ UNCHANGED <<tid, cfg, stored, committed, asked, delivered, fetched, stream, pending, reading, closedAt, joined, left, faulted, lastFail, closing>>
+         /\ UNCHANGED <<tid, cfg, stored, committed, asked, delivered, fetched, stream, pending, reading, handed, closedAt, joined, left, faulted, lastFail, closing>>
     [] OTHER -> viol' = viol \cup LateCheck(e, owner)
-                /\ UNCHANGED <<tid, cfg, stored, committed, asked, delivered, fetched, stream, pending, reading, closedAt, joined, left, faulted, gens, lastFail, closing>>
+                /\ UNCHANGED <<tid, cfg, stored, committed, asked, delivered, fetched, stream, pending, reading, handed, closedAt, joined, left, faulted, gens, lastFail, closing>>
 
 \* Reader.start: the offsets the new subscription begins at = committed offsets the coordinator returned, else StartOffset
 RStart(e) ==
   LET owner == OwnerOf(e.m)
       f == Get(fetched, owner, <<>>)
       offs == e.offsets IN
-  /\ stream' = Put(stream, <<e.m, e.ver>>, [k \in DOMAIN offs |-> [start |-> offs[k], hw |-> Get(stored, k, 0), got |-> <<>>]])
+  /\ stream' = Put(stream, <<e.m, e.ver>>, [k \in DOMAIN offs |-> [start |-> offs[k], hw |-> Get(stored, k, 0), got |-> <<>>, f0 |-> -1]])
   /\ viol' = viol \cup (IF ("!failed" \in DOMAIN f /\ DOMAIN offs # {}) \/ \E k \in DOMAIN offs : offs[k] # (IF Get(f, k, -1) >= 0 THEN f[k] ELSE cfg.startOffset)
                           THEN {"C03_StartAtCommit"} ELSE {})
-  /\ UNCHANGED <<tid, cfg, stored, committed, asked, delivered, fetched, pending, reading, closedAt, joined, left, faulted, gens, lastFail, closing>>
+  /\ UNCHANGED <<tid, cfg, stored, committed, asked, delivered, fetched, pending, reading, handed, closedAt, joined, left, faulted, gens, lastFail, closing>>
 
 Deliver(e) ==
   LET key == <<e.m, e.ver>>
@@ -145,9 +149,15 @@ Deliver(e) ==
   /\ stream' = IF known THEN [stream EXCEPT ![key][e.tp].got = Append(@, e.off)] ELSE stream
   /\ delivered' = Put(delivered, e.tp, Get(delivered, e.tp, {}) \cup {e.off})
   /\ asked' = IF e.m \in reading THEN Put(asked, e.tp, Max(Get(asked, e.tp, -1), e.off)) ELSE asked
+  /\ handed' = Put(handed, e.m, <<e.tp, e.off>>)
   /\ viol' = viol
        \cup (IF ~known THEN {"C03_OnlyAssigned"} ELSE {})
        \cup (IF known /\ s.got = <<>> /\ (IF s.start = -1 THEN e.off < first ELSE e.off # first) THEN {"C03_StartAtCommit"} ELSE {})
+       \* StartOffset = LastOffset: "last" is resolved once, when the partition is assigned; the first fetch request of the
+       \* member's first subscription shows what it resolved to, and delivery starts exactly there
+       \cup (IF known /\ s.got = <<>> /\ s.start = -1 /\ s.f0 >= 0 /\ e.off # s.f0 THEN {"C03_StartAtCommit"} ELSE {})
+       \* a record taken from the queue by an earlier FetchMessage call never reached the application
+       \cup (IF e.m \in DOMAIN handed /\ e.m \notin reading THEN {"C03_DeliveredReachesApp"} ELSE {})
        \cup (IF known /\ s.got # <<>> /\ e.off # Last(s.got) + 1 THEN {"C03_NoGapInStream"} ELSE {})
        \cup (IF e.off >= Get(stored, e.tp, 0) THEN {"C03_StoredOnly"} ELSE {})
   /\ UNCHANGED <<tid, cfg, stored, committed, fetched, pending, reading, closedAt, joined, left, faulted, gens, lastFail, closing>>
@@ -180,7 +190,7 @@ Upd(e) ==
          /\ stored' = e.stored
          /\ committed' = [k \in DOMAIN e.stored |-> -1] /\ asked' = [k \in DOMAIN e.stored |-> -1]
          /\ delivered' = [k \in DOMAIN e.stored |-> {}]
-         /\ fetched' = <<>> /\ stream' = <<>> /\ pending' = <<>> /\ reading' = {} /\ closedAt' = <<>> /\ joined' = <<>>
+         /\ fetched' = <<>> /\ stream' = <<>> /\ pending' = <<>> /\ reading' = {} /\ handed' = <<>> /\ closedAt' = <<>> /\ joined' = <<>>
          /\ left' = <<>> /\ faulted' = {} /\ gens' = <<>> /\ lastFail' = <<>> /\ closing' = {} /\ viol' = {}
     [] e.ev = "coord" -> Coord(e)
     [] e.ev = "injected" ->
@@ -191,22 +201,28 @@ Upd(e) ==
                       ELSE gens
          \* a failed OffsetFetch: the member does not know the group's commits until it has asked again
          /\ fetched' = IF e.api = "offsetfetch" THEN Put(fetched, e.owner, [x \in {"!failed"} |-> 0]) ELSE fetched
-         /\ UNCHANGED <<tid, cfg, stored, committed, asked, delivered, stream, pending, reading, closedAt, joined, left, closing, viol>>
+         /\ UNCHANGED <<tid, cfg, stored, committed, asked, delivered, stream, pending, reading, handed, closedAt, joined, left, closing, viol>>
     [] e.ev = "evict" ->
          /\ joined' = Put(joined, OwnerOf(e.m), "")
-         /\ UNCHANGED <<tid, cfg, stored, committed, asked, delivered, fetched, stream, pending, reading, closedAt, left, faulted, gens, lastFail, closing, viol>>
+         /\ UNCHANGED <<tid, cfg, stored, committed, asked, delivered, fetched, stream, pending, reading, handed, closedAt, left, faulted, gens, lastFail, closing, viol>>
     [] e.ev = "rstart" -> RStart(e)
     [] e.ev = "deliver" -> Deliver(e)
     [] e.ev = "msg" ->
          /\ viol' = viol \cup (IF ~e.ok THEN {"C03_StoredOnly"} ELSE {})
+                        \cup (IF e.m \in DOMAIN handed /\ handed[e.m] # <<e.tp, e.off>> THEN {"C03_DeliveredReachesApp"} ELSE {})
          /\ reading' = reading \ {e.m}
+         /\ handed' = Del(handed, e.m)
          /\ UNCHANGED <<tid, cfg, stored, committed, asked, delivered, fetched, stream, pending, closedAt, joined, left, faulted, gens, lastFail, closing>>
     [] e.ev = "read.call" ->
          /\ reading' = reading \cup {e.m}
+         /\ UNCHANGED handed
          /\ UNCHANGED <<tid, cfg, stored, committed, asked, delivered, fetched, stream, pending, closedAt, joined, left, faulted, gens, lastFail, closing, viol>>
     [] e.ev \in {"nomsg", "eof", "fetcherr"} ->
          /\ reading' = reading \ {e.m}
-         /\ UNCHANGED <<tid, cfg, stored, committed, asked, delivered, fetched, stream, pending, closedAt, joined, left, faulted, gens, lastFail, closing, viol>>
+         /\ handed' = Del(handed, e.m)
+         \* FetchMessage returned an error although it had taken a record from the queue: the record is lost to the application
+         /\ viol' = viol \cup (IF e.m \in DOMAIN handed /\ e.m \notin reading THEN {"C03_DeliveredReachesApp"} ELSE {})
+         /\ UNCHANGED <<tid, cfg, stored, committed, asked, delivered, fetched, stream, pending, closedAt, joined, left, faulted, gens, lastFail, closing>>
     [] e.ev = "commit.call" ->
          /\ asked' = [k \in DOMAIN asked \cup { e.msgs[i][1] : i \in DOMAIN e.msgs } |->
                         Max(Get(asked, k, -1), IF \E i \in DOMAIN e.msgs : e.msgs[i][1] = k
@@ -214,21 +230,21 @@ Upd(e) ==
                                                           x[1] = k /\ \A y \in { e.msgs[i] : i \in DOMAIN e.msgs } : y[1] = k => y[2] <= x[2])[2]
                                                  ELSE -1)]
          /\ pending' = Put(pending, <<e.m, IF "cid" \in DOMAIN e THEN e.cid ELSE 0>>, [msgs |-> e.msgs, acked |-> <<>>])
-         /\ UNCHANGED <<tid, cfg, stored, committed, delivered, fetched, stream, reading, closedAt, joined, left, faulted, gens, lastFail, closing, viol>>
+         /\ UNCHANGED <<tid, cfg, stored, committed, delivered, fetched, stream, reading, handed, closedAt, joined, left, faulted, gens, lastFail, closing, viol>>
     [] e.ev = "commit.return" ->
          /\ viol' = viol \cup
               (IF e.sync /\ e.err = "" /\ <<e.m, IF "cid" \in DOMAIN e THEN e.cid ELSE 0>> \in DOMAIN pending
                     /\ \E i \in DOMAIN e.msgs : Get(pending[<<e.m, IF "cid" \in DOMAIN e THEN e.cid ELSE 0>>].acked, e.msgs[i][1], -1) < e.msgs[i][2] + 1
                  THEN {"C03_SyncAckRecorded"} ELSE {})
-         /\ UNCHANGED <<tid, cfg, stored, committed, asked, delivered, fetched, stream, pending, reading, closedAt, joined, left, faulted, gens, lastFail, closing>>
+         /\ UNCHANGED <<tid, cfg, stored, committed, asked, delivered, fetched, stream, pending, reading, handed, closedAt, joined, left, faulted, gens, lastFail, closing>>
     [] e.ev = "append" ->
          /\ stored' = Put(stored, e.tp, e.hw)
-         /\ UNCHANGED <<tid, cfg, committed, asked, delivered, fetched, stream, pending, reading, closedAt, joined, left, faulted, gens, lastFail, closing, viol>>
+         /\ UNCHANGED <<tid, cfg, committed, asked, delivered, fetched, stream, pending, reading, handed, closedAt, joined, left, faulted, gens, lastFail, closing, viol>>
     [] e.ev = "close.call" ->
          /\ closing' = closing \cup {e.m}
          /\ viol' = viol \cup (IF Overdue(e.m, e.ts) THEN {"C15_EndsOnCause"} ELSE {})
                         \cup (IF Silent(e.m, e.ts) THEN {"C15_HeartbeatInterval"} ELSE {})
-         /\ UNCHANGED <<tid, cfg, stored, committed, asked, delivered, fetched, stream, pending, reading, closedAt, joined, left, faulted, gens, lastFail>>
+         /\ UNCHANGED <<tid, cfg, stored, committed, asked, delivered, fetched, stream, pending, reading, handed, closedAt, joined, left, faulted, gens, lastFail>>
     [] e.ev = "close.return" ->
          /\ closedAt' = Put(closedAt, e.m, e.ts)
          \* the group it had joined is left (unless the coordinator could not be reached because of an injected fault)
@@ -238,22 +254,37 @@ Upd(e) ==
                  THEN {"C15_LeaveOnClose"} ELSE {})
               \* Close returns only when every function started in any generation has returned
               \cup (IF \E k \in DOMAIN gens : k[1] = e.m /\ gens[k].routines # 0 THEN {"C15_CloseWaits"} ELSE {})
-         /\ UNCHANGED <<tid, cfg, stored, committed, asked, delivered, fetched, stream, pending, reading, joined, left, faulted, gens, lastFail, closing>>
+         /\ UNCHANGED <<tid, cfg, stored, committed, asked, delivered, fetched, stream, pending, reading, handed, joined, left, faulted, gens, lastFail, closing>>
     [] e.ev = "bfetch" ->
          /\ viol' = viol \cup LateCheck(e, e.owner)
-         /\ UNCHANGED <<tid, cfg, stored, committed, asked, delivered, fetched, stream, pending, reading, closedAt, joined, left, faulted, gens, lastFail, closing>>
+         \* the first fetch request of the member's first subscription (no earlier fetcher of that member can still be writing)
+         /\ stream' = LET ks == { k \in DOMAIN stream : k[1] = MOf(e.owner) } IN
+                       IF ks # {} /\ (\A k1, k2 \in ks : k1 = k2)
+                         THEN [k \in DOMAIN stream |->
+                                 IF k \in ks /\ e.tp \in DOMAIN stream[k] /\ stream[k][e.tp].f0 < 0
+                                   THEN [stream[k] EXCEPT ![e.tp].f0 = e.off] ELSE stream[k]]
+                         ELSE stream
+         /\ UNCHANGED <<tid, cfg, stored, committed, asked, delivered, fetched, pending, reading, handed, closedAt, joined, left, faulted, gens, lastFail, closing>>
     [] e.ev \in {"gstart", "gfnexit", "gclose", "gclosed"} ->
          /\ GenUpd(e)
-         /\ UNCHANGED <<tid, cfg, stored, committed, asked, delivered, fetched, stream, pending, reading, closedAt, joined, left, faulted, lastFail, closing>>
+         /\ UNCHANGED <<tid, cfg, stored, committed, asked, delivered, fetched, stream, pending, reading, handed, closedAt, joined, left, faulted, lastFail, closing>>
+    [] e.ev \in {"gen.start", "gen.fnexit"} ->
+         \* real-time copies of the Generation hooks (the "gstart"/"gfnexit" events of a generation are recorded only once Next has
+         \* handed it out): the number of functions running in the gix-th generation the library created for member m, kept under
+         \* the key <<m, -gix>>.  Close waits for these too, whether or not the application ever received the generation.
+         /\ gens' = LET k == <<e.m, 0 - e.gix>> IN
+                    IF e.ev = "gen.start" /\ ~e.tracked THEN gens
+                    ELSE Put(gens, k, [Get(gens, k, NewGen) EXCEPT !.routines = e.routines])
+         /\ UNCHANGED <<tid, cfg, stored, committed, asked, delivered, fetched, stream, pending, reading, handed, closedAt, joined, left, faulted, lastFail, closing, viol>>
     [] e.ev = "fn.exit" /\ e.why = "own" ->
          /\ gens' = Put(gens, GenKey(e), Due([Get(gens, GenKey(e), NewGen) EXCEPT !.cause = TRUE], e.ts))
-         /\ UNCHANGED <<tid, cfg, stored, committed, asked, delivered, fetched, stream, pending, reading, closedAt, joined, left, faulted, lastFail, closing, viol>>
+         /\ UNCHANGED <<tid, cfg, stored, committed, asked, delivered, fetched, stream, pending, reading, handed, closedAt, joined, left, faulted, lastFail, closing, viol>>
     [] e.ev = "addpartition" ->
          /\ cfg' = IF cfg.watch /\ "how" \in DOMAIN e /\ e.how = "deleted" THEN [cfg EXCEPT !.gone = TRUE] ELSE cfg
          \* with WatchPartitionChanges, a generation whose watcher had time to read the old partition count must end
          /\ gens' = [k \in DOMAIN gens |-> IF cfg.watch /\ gens[k].born >= 0 /\ e.ts - gens[k].born > 150
                                              THEN Due([gens[k] EXCEPT !.cause = TRUE], e.ts) ELSE [gens[k] EXCEPT !.cause = TRUE]]
-         /\ UNCHANGED <<tid, stored, committed, asked, delivered, fetched, stream, pending, reading, closedAt, joined, left, faulted, lastFail, closing, viol>>
+         /\ UNCHANGED <<tid, stored, committed, asked, delivered, fetched, stream, pending, reading, handed, closedAt, joined, left, faulted, lastFail, closing, viol>>
     [] e.ev = "offered" ->
          \* (the hook fires when Next has taken the generation; the application may have recorded next.return already)
          LET ready == Get(gens, <<e.m, 0>>, NewGen).offered
@@ -261,22 +292,22 @@ Upd(e) ==
          /\ gens' = Put(gens, <<e.m, e.gen>>, [g0 EXCEPT !.offered = IF ready >= 0 THEN ready ELSE e.ts])
          \* live since `ready`, handed out only now, and not one heartbeat has reached the coordinator in between
          /\ viol' = viol \cup (IF ready >= 0 /\ e.ts - ready > HbSlack /\ g0.lastHb < 0 THEN {"C15_HeartbeatInterval"} ELSE {})
-         /\ UNCHANGED <<tid, cfg, stored, committed, asked, delivered, fetched, stream, pending, reading, closedAt, joined, left, faulted, lastFail, closing>>
+         /\ UNCHANGED <<tid, cfg, stored, committed, asked, delivered, fetched, stream, pending, reading, handed, closedAt, joined, left, faulted, lastFail, closing>>
     [] e.ev = "next.return" ->
          \* Next hands out a generation only when every tracked function of the earlier ones has returned
-         /\ viol' = viol \cup (IF \E k \in DOMAIN gens : k[1] = e.m /\ k[2] < e.gen /\ gens[k].routines # 0
+         /\ viol' = viol \cup (IF \E k \in DOMAIN gens : k[1] = e.m /\ k[2] > 0 /\ k[2] < e.gen /\ gens[k].routines # 0
                                  THEN {"C15_NextWaits"} ELSE {})
                         \cup (IF Silent(e.m, e.ts) THEN {"C15_HeartbeatInterval"} ELSE {})
-         /\ UNCHANGED <<tid, cfg, stored, committed, asked, delivered, fetched, stream, pending, reading, closedAt, joined, left, faulted, gens, lastFail, closing>>
+         /\ UNCHANGED <<tid, cfg, stored, committed, asked, delivered, fetched, stream, pending, reading, handed, closedAt, joined, left, faulted, gens, lastFail, closing>>
     [] e.ev = "hang" ->
          /\ viol' = viol \cup {IF e.what = "close" THEN "C09r_CloseReturns" ELSE "C09r_AppReturns"}
-         /\ UNCHANGED <<tid, cfg, stored, committed, asked, delivered, fetched, stream, pending, reading, closedAt, joined, left, faulted, gens, lastFail, closing>>
+         /\ UNCHANGED <<tid, cfg, stored, committed, asked, delivered, fetched, stream, pending, reading, handed, closedAt, joined, left, faulted, gens, lastFail, closing>>
     [] e.ev = "end" ->
          /\ viol' = viol
               \cup (IF \E o \in DOMAIN e.open : e.open[o] # 0 THEN {"C09r_ConnsClosed"} ELSE {})
               \cup (IF e.drained /\ cfg.startOffset = -2 /\ \E k \in DOMAIN stored : \E o \in 0 .. stored[k] - 1 : o \notin Get(delivered, k, {})
                       THEN {"C03_AtLeastOnce"} ELSE {})
-         /\ UNCHANGED <<tid, cfg, stored, committed, asked, delivered, fetched, stream, pending, reading, closedAt, joined, left, faulted, gens, lastFail, closing>>
+         /\ UNCHANGED <<tid, cfg, stored, committed, asked, delivered, fetched, stream, pending, reading, handed, closedAt, joined, left, faulted, gens, lastFail, closing>>
     [] OTHER -> Same
 
 Next == l <= Len(Trace) /\ l' = l + 1 /\ Upd(Trace[l])
@@ -291,6 +322,7 @@ C03_OnlyAssigned == "C03_OnlyAssigned" \notin viol
 C03_StoredOnly == "C03_StoredOnly" \notin viol
 C03_DeliveredBeforeCovered == "C03_DeliveredBeforeCovered" \notin viol
 C03_AtLeastOnce == "C03_AtLeastOnce" \notin viol
+C03_DeliveredReachesApp == "C03_DeliveredReachesApp" \notin viol
 C15_NextWaits == "C15_NextWaits" \notin viol
 C15_CloseWaits == "C15_CloseWaits" \notin viol
 C15_EndCauses == "C15_EndCauses" \notin viol
